@@ -579,7 +579,8 @@ Proof.
     + set (s1 := upd_task s k _).
       assert (L1 : lsame (Some k) s (tr_close s1 t)) by (eapply lsame_trans; [apply upd_task_ls | apply tr_close_ls]).
       apply sr_exception_Q. intros; apply sr_attempt_Q; auto. eapply P_lsame; eauto. eapply Hk_lsame; eauto. apply HkL_Hk; auto.
-    + set (s1 := upd_task s k _).
+    + destruct (has_waiter k t (s_ready s)). apply Q_nil; auto.
+      set (s1 := upd_task s k _).
       assert (L1 : lsame (Some k) s (s1 <| s_transport := Some t |>)) by (apply lsame_trans with (b := s1); [apply upd_task_ls | ls_same]).
       apply sr_after_send_Q. intros; apply sr_attempt_Q; auto. eapply P_lsame; eauto. eapply HkL_lsame; eauto.
   - (* PcConnHang *) pose proof (Hcs eq_refl) as HH.
@@ -642,7 +643,7 @@ Proof.
   - apply SQ_ls; auto. apply lsame_refl. apply nosend_nil.
   - destruct (get_task k (s_tasks s)) as [tk|]. 2: { apply SQ_ls; auto. apply lsame_refl. apply nosend_nil. }
     destruct (t_pc tk); try (apply SQ_ls; auto; [apply lsame_refl | apply nosend_nil]).
-    destruct (t_cancelled tk); apply SQ_ls; auto; try apply nosend_nil. apply lsame_refl. apply push_ls.
+    destruct (_ || _); apply SQ_ls; auto; try apply nosend_nil. apply lsame_refl. apply push_ls.
   - destruct (tstate_of s t); try (apply SQ_ls; auto; [apply lsame_refl | apply nosend_nil]).
     destruct i.
     + apply SQ_ls; auto. apply received_ls. apply received_nosend.
